@@ -1,5 +1,5 @@
 (* C06 -- Pretty printing changes layout only (writer-level clauses).  Property theorems only. *)
-Require Import Base Token Lexer Tree SourceMap Writer Compile Parser Grammar WriterSpec RelexSpec WriterProofs PrettyProofs TriviaProofs.
+Require Import Base Token Lexer Tree SourceMap Writer Compile Parser Grammar WriterSpec RelexSpec WriterProofs PrettyProofs TriviaProofs RefutedPretty.
 Require Import Gen.Tables Gen.Printer.
 
 (* the semicolon option is read by the statement-terminator operation only: output
@@ -45,3 +45,36 @@ Theorem C06_idempotent : forall src toks p indent m,
             r_code (compile (cfg_pretty indent true m) (pr_program r)) = r_code (compile (cfg_pretty indent true m) p).
 Proof. exact pretty_idempotent. Qed.
 Print Assumptions C06_idempotent.
+
+(* REFUTED CLAUSES (recorded findings as theorems; witnesses evaluated by the kernel) *)
+
+(* KF1: the round trip is FALSE with semicolons off.  Witness  a;(b)  : two statements are
+   printed as  a<LF>(b) , which parses without error to ONE statement, the call a(b). *)
+Theorem C06_round_trip_without_semicolons_refuted :
+  exists src toks p,
+    tokenize src = Some toks /\ strings_stable toks = true /\ literals_trim_safe toks = true /\
+    m_program p toks = true /\ wf_program p = true /\
+    exists r, reparse (cfg_pretty [32; 32]%N false false) p = Some r /\ pr_errors r = [] /\
+              shape_program (pr_program r) <> shape_program p.
+Proof. exact kf1_pretty_no_semis_refuted. Qed.
+Print Assumptions C06_round_trip_without_semicolons_refuted.
+
+(* KF2: with semicolons off  if(a)b;else c  is printed as  if (a) b else c , a syntax error *)
+Theorem C06_else_without_semicolons_refuted :
+  exists src toks p,
+    tokenize src = Some toks /\ strings_stable toks = true /\ literals_trim_safe toks = true /\
+    m_program p toks = true /\ wf_program p = true /\
+    exists r, reparse (cfg_pretty [32; 32]%N false false) p = Some r /\ pr_errors r <> [].
+Proof. exact kf2_pretty_no_semis_refuted. Qed.
+Print Assumptions C06_else_without_semicolons_refuted.
+
+(* KF3: the hypothesis [literals_trim_safe] is necessary.  Witness  x=`a <LF>b`;  : the pretty
+   output lexes to the same token types but the backtick literal has lost a blank. *)
+Theorem C06_trim_inside_literal_refuted :
+  exists src toks p code toks',
+    tokenize src = Some toks /\ strings_stable toks = true /\ literals_trim_safe toks = false /\
+    m_program p toks = true /\ wf_program p = true /\
+    code = r_code (compile (cfg_pretty [32; 32]%N true false) p) /\
+    tokenize code = Some toks' /\ map t_type toks' = map t_type toks /\ map t_lit toks' <> map t_lit toks.
+Proof. exact kf3_pretty_trims_literal_refuted. Qed.
+Print Assumptions C06_trim_inside_literal_refuted.
